@@ -324,4 +324,23 @@ theorem text_complete (md : Nat) (b : Bytes) (h : JText go md id b) : ∃ t, par
     simpa [skipWs] using this
   simp [this]
 
+/-- with duplicate names allowed the key function of the grammar is irrelevant -/
+theorem jvalue_key_irrel (strict : Bool) (md : Nat) (k k' : Bytes → Bytes) {d : Nat} {v : Bytes}
+    (h : JValue ⟨strict, true⟩ md k d v) : JValue ⟨strict, true⟩ md k' d v := by
+  induction h with
+  | null d => exact .null d
+  | true d => exact .true d
+  | false d => exact .false d
+  | num d p hp => exact .num d p hp
+  | str d p hp => exact .str d p hp
+  | emptyArr d w h1 h2 => exact .emptyArr d w h1 h2
+  | emptyObj d w h1 h2 => exact .emptyObj d w h1 h2
+  | arr d elems h1 h2 h3 _ ih => exact .arr d elems h1 h2 h3 ih
+  | obj d mems h1 h2 h3 _ _ ih => exact .obj d mems h1 h2 h3 ih (Or.inl rfl)
+
+theorem jtext_key_irrel (strict : Bool) (md : Nat) (k k' : Bytes → Bytes) {b : Bytes}
+    (h : JText ⟨strict, true⟩ md k b) : JText ⟨strict, true⟩ md k' b := by
+  obtain ⟨w1, v, w2, h1, h2, h3, h4⟩ := h
+  exact ⟨w1, v, w2, h1, jvalue_key_irrel strict md k k' h2, h3, h4⟩
+
 end JsonV.Lemmas.GlueMeaningTreeC
